@@ -35,7 +35,12 @@ func key(it *base.MetricItem) string {
 	return fmt.Sprintf("%d|%s|%d|%d|%d|%d|%d|%d|%d|%d", it.Timestamp, it.Resource, it.PassQps, it.BlockQps, it.CompleteQps, it.ErrorQps, it.AvgRt, it.OccupiedPassQps, it.Concurrency, it.Classification)
 }
 
-var nameRe = regexp.MustCompile(`^app-metrics\.log\.(\d{4}-\d{2}-\d{2})(?:\.(\d+))?$`)
+// the base name of a metric log file carries the application name with its dots replaced (a dot separates the date and
+// the roll index from the base name), whatever the configured name
+var nameRe = regexp.MustCompile(`^[^.]+-metrics\.log\.(\d{4}-\d{2}-\d{2})(?:\.(\d+))?$`)
+
+// appName is the application name of the running case.
+var appName = "app"
 
 // dataFiles: the retained data files in log order (date, then roll number), by an independent reading of the directory.
 func dataFiles(dir string) []string {
@@ -243,14 +248,17 @@ func TestMetricLog(t *testing.T) {
 			t0 = day + 86400000 - uint64(rapid.IntRange(1, 5000).Draw(t, "beforeMidnight"))
 		}
 		hx.C.SetMs(t0)
+		appName = rapid.SampledFrom([]string{"app", "app", "a.b", "com.example.shop", "svc-1.eu.west.prod"}).Draw(t, "appName")
+		defer func() { appName = "app" }()
+		c.ClassIf(strings.Count(appName, ".") > 1, "application-name-with-several-dots")
 		maxSize := uint64(rapid.SampledFrom([]int{100, 300, 1000, 100000}).Draw(t, "maxSize"))
 		maxFiles := uint32(rapid.IntRange(1, 4).Draw(t, "maxFiles"))
-		w, err := metric.NewDefaultMetricLogWriterOfApp(maxSize, maxFiles, "app")
+		w, err := metric.NewDefaultMetricLogWriterOfApp(maxSize, maxFiles, appName)
 		if err != nil {
 			t.Fatalf("writer: %v", err)
 		}
 		defer w.(interface{ Close() error }).Close()
-		s, err := metric.NewDefaultMetricSearcher(dir, metric.FormMetricFileName("app", false))
+		s, err := metric.NewDefaultMetricSearcher(dir, metric.FormMetricFileName(appName, false))
 		if err != nil {
 			t.Fatalf("searcher: %v", err)
 		}
@@ -383,7 +391,7 @@ func TestMetricLog(t *testing.T) {
 			qs = append(qs, query{begin: b, end: ts + 5000}, query{limit: true, begin: b, maxLines: 1000})
 		}
 		fresh := func(d string) metric.MetricSearcher {
-			x, _ := metric.NewDefaultMetricSearcher(d, metric.FormMetricFileName("app", false))
+			x, _ := metric.NewDefaultMetricSearcher(d, metric.FormMetricFileName(appName, false))
 			return x
 		}
 		baseline := make([][]string, len(qs))
@@ -491,7 +499,7 @@ func TestMetricLog(t *testing.T) {
 				config.ResetGlobalConfig(ent2)
 				ts2 := ts + uint64(rapid.SampledFrom([]int{1000, 1000, 3000, 60000}).Draw(t, "downtime"))
 				hx.C.SetMs(ts2)
-				w2, err := metric.NewDefaultMetricLogWriterOfApp(maxSize, maxFiles, "app")
+				w2, err := metric.NewDefaultMetricLogWriterOfApp(maxSize, maxFiles, appName)
 				if err != nil {
 					t.Fatalf("writer restart after a cut at byte %d: %v", k, err)
 				}
@@ -589,7 +597,7 @@ func TestSparseResourceInBigFile(t *testing.T) {
 		defer config.ResetGlobalConfig(config.NewDefaultConfig())
 		t0 := hx.Epoch - hx.Epoch%86400000 + 3600000 // far from midnight: one file
 		hx.C.SetMs(t0)
-		w, err := metric.NewDefaultMetricLogWriterOfApp(1<<30, 3, "app")
+		w, err := metric.NewDefaultMetricLogWriterOfApp(1<<30, 3, appName)
 		if err != nil {
 			t.Fatalf("writer: %v", err)
 		}
@@ -621,7 +629,7 @@ func TestSparseResourceInBigFile(t *testing.T) {
 		if files := dataFiles(dir); len(files) != 1 {
 			t.Fatalf("expected one log file, found %v", files)
 		}
-		s, err := metric.NewDefaultMetricSearcher(dir, metric.FormMetricFileName("app", false))
+		s, err := metric.NewDefaultMetricSearcher(dir, metric.FormMetricFileName(appName, false))
 		if err != nil {
 			t.Fatalf("searcher: %v", err)
 		}
